@@ -8,11 +8,11 @@
    Both loops are "for cond" loops: gen_QuantileCI takes fuel.  The greedy loop is tied to the
    model's own fuelled [loop] iteration for iteration (go_while needs one unit more: the model
    tests the guard once more at fuel 0).  The widening loop of the normal branch
-   (for cdf(l,r) < confidence && ... { l--; r++ }) is NOT in the model, which assumes exact
-   quantiles (C11_normal_conf_ge_c: the band already has the mass); the tie of that branch carries
-   this as the hypothesis [no_widen]. *)
+   (for cdf(l,r) < confidence && (l > 0 || r < n+1) { l--; r++ }) is the model's [widen]
+   (Model/QuantileCI.v, D19): for every fuel above widen_fuel = max(l, n+1-r) the generated code
+   makes exactly the model's steps (widen_loop below + Proofs.QuantileCI.widen_spec). *)
 From Coq Require Import ZArith NArith QArith Qround Qabs List Bool Lia Lqa.
-From MM Require Import Base.Num Base.GoSem Model.QuantileCI Proofs.TicksLinear.
+From MM Require Import Base.Num Base.GoSem Model.QuantileCI Proofs.TicksLinear Proofs.QuantileCI.
 From MMGen Require Import Gen_stats_types Gen_stats_quantileci.
 Import ListNotations.
 Local Open Scope Q_scope.
@@ -164,7 +164,34 @@ Proof.
   - apply Qplus_lt_r. reflexivity.
 Qed.
 
-Theorem tie_QuantileCI_normal : forall ncdff ninvcdff normapproxf pmff thresholdv (f : nat) (n : Z) (q c : Q),
+(* the widening loop  for cdf(l, r) < confidence && (l > 0 || r < n+1) { l--; r++ }  over abstract
+   condition / body: after the k steps of the model's [widen] the guard is false *)
+Section Widen.
+  Variable cdfband : Z -> Z -> Q.
+  Variables (n : Z) (c : Q).
+  Variable cond : Z * Z -> bool.
+  Variable body : Z * Z -> Z * Z.
+  Hypothesis cond_ok : forall l r, cond (l, r) = widen_more cdfband n c l r.
+  Hypothesis body_ok : forall l r, (- 9223372036854775808 < l - 1)%Z -> (l < 9223372036854775808)%Z -> (- 9223372036854775808 < r)%Z -> (r + 1 < 9223372036854775808)%Z -> body (l, r) = ((l - 1)%Z, (r + 1)%Z).
+
+  Lemma widen_loop : forall (k : nat) l r, (l < 9223372036854775808)%Z -> (- 9223372036854775808 < r)%Z -> (- 9223372036854775808 < l - Z.of_nat k)%Z -> (r + Z.of_nat k < 9223372036854775808)%Z ->
+    (forall j, (0 <= j < Z.of_nat k)%Z -> widen_more cdfband n c (l - j) (r + j) = true) ->
+    widen_more cdfband n c (l - Z.of_nat k) (r + Z.of_nat k) = false ->
+    forall F, (k < F)%nat -> go_while F cond body (l, r) = Some ((l - Z.of_nat k)%Z, (r + Z.of_nat k)%Z).
+  Proof.
+    induction k as [|k IH]; intros l r Hl' Hr' Hl Hr Hj Hk F HF; (destruct F as [|F]; [lia|]); rewrite go_while_S, cond_ok.
+    - cbn [Z.of_nat] in *. rewrite Z.sub_0_r, Z.add_0_r in *. rewrite Hk. reflexivity.
+    - pose proof (Hj 0%Z ltac:(lia)) as H0. rewrite Z.sub_0_r, Z.add_0_r in H0. rewrite H0.
+      rewrite body_ok by lia.
+      replace (l - Z.of_nat (S k))%Z with (l - 1 - Z.of_nat k)%Z in * by lia.
+      replace (r + Z.of_nat (S k))%Z with (r + 1 + Z.of_nat k)%Z in * by lia.
+      apply IH; try lia; [|exact Hk].
+      intros j Hjj. replace (l - 1 - j)%Z with (l - (j + 1))%Z by lia. replace (r + 1 + j)%Z with (r + (j + 1))%Z by lia.
+      apply Hj. lia.
+  Qed.
+End Widen.
+
+Theorem tie_QuantileCI_normal : forall ncdff ninvcdff normapproxf pmff thresholdv (F : nat) (n : Z) (q c : Q),
   small62 n -> c < 1 -> (thresholdv < n)%Z ->
   let norm := normapproxf (mk_BinomialDist n q) in
   let l1 := ninvcdff norm (qci_alpha c) in
@@ -173,12 +200,12 @@ Theorem tie_QuantileCI_normal : forall ncdff ninvcdff normapproxf pmff threshold
   let l0 := (Qfloor (l1 - (1 # 2)) + 1)%Z in
   let r := (Qceiling (r1 - (1 # 2)) + 1)%Z in
   let l := if (r <=? l0)%Z then (r - 1)%Z else l0 in
-  (* the band already has the mass (or covers everything): the widening loop does not run *)
-  (c <= band_of ncdff norm l r \/ ((l <= 0)%Z /\ (n + 1 <= r)%Z)) ->
-  gen_QuantileCI ncdff ninvcdff normapproxf pmff thresholdv (S f) n q c =
+  (* enough fuel for the widening loop (at most max(l, n+1-r) trips, Proofs.QuantileCI.widen_spec) *)
+  (widen_fuel n l r < F)%nat ->
+  gen_QuantileCI ncdff ninvcdff normapproxf pmff thresholdv F n q c =
   Some (to_res q n (qci_normal (band_of ncdff norm) n c l1 r1)).
 Proof.
-  intros ncdff ninvcdff normapproxf pmff thresholdv f n q c Hn Hc Hth norm l1 r1 Hl1 Hr1 l0 r l Hnw.
+  intros ncdff ninvcdff normapproxf pmff thresholdv F n q c Hn Hc Hth norm l1 r1 Hl1 Hr1 l0 r l HF.
   unfold gen_QuantileCI. cbv zeta. rproj.
   apply Qleb_niff in Hc. rewrite Hc. destruct (Z.leb_spec n thresholdv) as [C|_]; [lia|].
   fold norm. change (if Qltb (1 # 2) (((1 # 1) - c) / (2 # 1)) then 1 # 2 else ((1 # 1) - c) / (2 # 1)) with (qci_alpha c).
@@ -188,25 +215,39 @@ Proof.
   rewrite (ssub1 r) by exact Hr.
   change (if (r <=? l0)%Z then (r - 1)%Z else l0) with l.
   assert (Hl : small62 l) by (unfold l; destruct (r <=? l0)%Z; z62).
-  (* the loop guard is false on entry *)
-  rewrite go_while_S. cbv beta iota.
-  match goal with |- context [Qltb ?a c && ((0 <? l)%Z || (r <? n + 1)%Z)] =>
-    change a with (band_of ncdff norm l r);
-    replace (Qltb (band_of ncdff norm l r) c && ((0 <? l)%Z || (r <? n + 1)%Z)) with false end.
-  2:{ symmetry. destruct Hnw as [H|[H1 H2]].
-      - apply Qltb_niff in H. rewrite H. reflexivity.
-      - replace (0 <? l)%Z with false by (symmetry; apply Z.ltb_ge; lia).
-        replace (r <? n + 1)%Z with false by (symmetry; apply Z.ltb_ge; lia). apply andb_false_r. }
-  rewrite (ssub1 r) by exact Hr. unfold qci_normal. cbv zeta. fold l0. fold r.
-  change (if (r <=? l0)%Z then (r - 1)%Z else l0) with l.
-  change (Qle_bool c (band_of ncdff norm l (r - 1))) with (Qleb c (band_of ncdff norm l (r - 1))).
-  match goal with |- context [Qleb c ?a] => change a with (band_of ncdff norm l (r - 1)) end.
-  repeat match goal with |- context [ncdff norm (go_i2f r - (1 # 2)) - ncdff norm (go_i2f l - (1 # 2))] =>
-    change (ncdff norm (go_i2f r - (1 # 2)) - ncdff norm (go_i2f l - (1 # 2))) with (band_of ncdff norm l r) end.
-  destruct ((l <? r - 1)%Z && Qleb c (band_of ncdff norm l (r - 1)) && Qltb (band_of ncdff norm l (r - 1)) (band_of ncdff norm l r));
-    cbv iota beta;
-    match goal with |- context [(l <=? 0)%Z && (n + 1 <=? ?rr)%Z] => destruct ((l <=? 0)%Z && (n + 1 <=? rr)%Z) end;
-    unfold to_res, clampR; rproj; reflexivity.
+  (* the widening loop = the model's widen *)
+  destruct (Proofs.QuantileCI.widen_spec (band_of ncdff norm) n c (widen_fuel n l r) l r ltac:(unfold widen_fuel; lia))
+    as (k & Hk & Ew & Ek & Ej).
+  assert (Hkb : (k <= Z.of_nat (widen_fuel n l r))%Z).
+  { destruct (Z.le_gt_cases k (Z.of_nat (widen_fuel n l r))) as [A|A]; [exact A|exfalso].
+    (* after widen_fuel steps the guard is false, but Ej says it is true there *)
+    pose proof (Ej (Z.of_nat (widen_fuel n l r)) ltac:(lia)) as Et. unfold widen_more in Et.
+    apply andb_prop in Et as [_ B]. unfold widen_fuel in B. apply orb_prop in B as [B|B]; apply Z.ltb_lt in B; lia. }
+  assert (Hfb : (Z.of_nat (widen_fuel n l r) < 4611686018427387904)%Z) by (unfold widen_fuel; z62).
+  match goal with |- context [go_while F ?cnd ?bdy (l, r)] =>
+    rewrite (widen_loop (band_of ncdff norm) n c cnd bdy) with (k := Z.to_nat k)
+  end.
+  - rewrite Z2Nat.id by exact Hk. unfold qci_normal. cbv zeta. fold l0. fold r.
+    change (if (r <=? l0)%Z then (r - 1)%Z else l0) with l. rewrite Ew.
+    set (lw := (l - k)%Z). set (rw := (r + k)%Z).
+    assert (Hrw : (- 4611686018427387904 < rw < 9223372036854775807)%Z) by (unfold rw; z62).
+    replace (go_ssub 64 rw 1) with (rw - 1)%Z by (symmetry; unfold go_ssub; apply wrap_s64_small'; lia).
+    change (Qle_bool c (band_of ncdff norm lw (rw - 1))) with (Qleb c (band_of ncdff norm lw (rw - 1))).
+    repeat match goal with |- context [ncdff norm (go_i2f ?b - (1 # 2)) - ncdff norm (go_i2f ?a - (1 # 2))] =>
+      change (ncdff norm (go_i2f b - (1 # 2)) - ncdff norm (go_i2f a - (1 # 2))) with (band_of ncdff norm a b) end.
+    destruct ((lw <? rw - 1)%Z && Qleb c (band_of ncdff norm lw (rw - 1)) && Qltb (band_of ncdff norm lw (rw - 1)) (band_of ncdff norm lw rw));
+      cbv iota beta;
+      match goal with |- context [(lw <=? 0)%Z && (n + 1 <=? ?rr)%Z] => destruct ((lw <=? 0)%Z && (n + 1 <=? rr)%Z) end;
+      unfold to_res, clampR; rproj; reflexivity.
+  - intros a b. cbv beta iota. unfold widen_more, band_of. rewrite ?(sadd1 n) by exact Hn. reflexivity.
+  - intros a b Ha Ha' Hb' Hb. cbv beta iota. unfold go_ssub, go_sadd. rewrite !wrap_s64_small' by lia. reflexivity.
+  - z62.
+  - z62.
+  - rewrite Z2Nat.id by exact Hk. z62.
+  - rewrite Z2Nat.id by exact Hk. z62.
+  - rewrite Z2Nat.id by exact Hk. exact Ej.
+  - rewrite Z2Nat.id by exact Hk. exact Ek.
+  - lia.
 Qed.
 
 (* ---------- QuantileCIResult.SampleCI (quantileci.go:46-71) ---------- *)
